@@ -151,6 +151,11 @@ class Engine(GenericConcreteEngine[Callable[..., Any]]):
                     return transfer.reapply(operation.apply(target)), True, ()
                 else:
                     upstream, done, messages = target.engine.backtrack_unary(operation, target, preferred)
+                    if upstream is target:
+                        # Nothing was inserted upstream; reapply would still
+                        # return a new Transfer if this one has a payload,
+                        # and our caller would take that as a change.
+                        return (transfer, done, messages)
                     return (transfer.reapply(upstream), done, messages)
         raise NotImplementedError(f"Unsupported relation type {tree} for engine {self}.")
 
